@@ -24,7 +24,7 @@ def main(argv):
         a, b = e['span']
         jobs.append((e['relpath'], (orig[:a] + e['new'].encode('utf8') + orig[b:]).decode('utf8'), k))
     out = []
-    with ProcessPoolExecutor(max_workers=8, initializer=mutscan._init, initargs=(relevant,)) as ex:
+    with ProcessPoolExecutor(max_workers=int(os.environ.get("JOBS", "8")), initializer=mutscan._init, initargs=(relevant,)) as ex:
         for key, caught, err2 in ex.map(mutscan._analyse, jobs, chunksize=2):
             out.append((key, caught, err2))
     alive = [k for (k, c, e2) in out if not c and not e2]
